@@ -20,6 +20,16 @@ EXTRA["entry"] = """5. This time make the change in an **alternative entry point
    flag), or a value class the main path rarely meets (zero, negative, maximal, empty, a numpy or bool value, two equal
    operands, the same object used twice). The default path with ordinary values must behave exactly as before. Do NOT
    use caching or stale state. The change must still lie inside the property's "quantified over" domain."""
+EXTRA["history"] = """5. This time the change must be **history-dependent**: on a fresh object in a fresh process, on first use, everything
+   behaves exactly as before; the misbehaviour needs a particular **earlier event** inside the property's domain. Examples:
+   the second (or n-th) use of the same object (connection, builder, subroutine, instruction, socket, executor, controller,
+   parser / transpiler / deserializer instance, flavour); state left behind by an operation that **failed or raised**
+   (a refused input, a faulted subroutine, a timeout) and was then followed by a valid one; close / reopen, stop /
+   re-register, flush boundaries; an operation of **another** application, thread, node or flavour in the same process
+   in between; two calls that should commute but no longer do; arguments mutated in place and then reused by the
+   caller; a mutable default argument or class-level attribute that accumulates; an iterator or list consumed once;
+   a counter or id that is not reset (or is reset when it should not be). It does not have to be a cache. The demo should
+   show the same call giving the right result the first time and the wrong one later (or after the earlier event)."""
 extra = EXTRA[style]
 props = [json.loads(l) for l in open('/verif/properties.jsonl')]
 only = [x for x in os.environ.get("WAVE_ONLY", "").split(",") if x]
